@@ -108,11 +108,24 @@ func comment(d igDir, style int, rng *rand.Rand, neutral bool) string {
 	sort.Strings(rs)
 	body := w
 	if len(rs) > 0 {
-		sep := ", "
-		if rng.Intn(3) == 0 {
-			sep = ","
+		// spellings of a rule list: the named rules are the same in all of them (docs/linter.md: comma separated
+		// names); an unknown name matches nothing
+		switch rng.Intn(7) {
+		case 0:
+			body += " " + strings.Join(rs, ",")
+		case 1:
+			body += " " + strings.Join(rs, ", ") + ","
+		case 2:
+			body += " " + strings.Join(rs, ",, ") + ",,"
+		case 3:
+			body += "  " + strings.Join(rs, " ,  ") + " "
+		case 4:
+			body += " " + strings.Join(append([]string{"c12/no-such-rule"}, rs...), ", ")
+		case 5:
+			body += " " + strings.Join(rs, ", ") + ", , c12/no-such-rule"
+		default:
+			body += " " + strings.Join(rs, ", ")
 		}
-		body += " " + strings.Join(rs, sep)
 	}
 	if style == 3 {
 		style = rng.Intn(3)
@@ -179,8 +192,16 @@ func render(b *igBeh, style int, seed int64, neutral bool, decorate bool) render
 		json.Unmarshal(e[0], &kind) // nolint:errcheck
 		json.Unmarshal(e[1], &path) // nolint:errcheck
 		switch kind {
-		case "sublead", "lead", "block_end", "eof":
+		case "sublead", "lead", "block_end", "eof", "sw_end":
 			gap(n)
+		case "rootdecl":
+			// never referenced: unused/declaration is raised after the whole file has been linted
+			lines = append(lines, `acl c12_acl_site { "198.51.100.0"/24; }`)
+			siteLine[len(lines)] = n
+		case "decl":
+			// never read: unused/variable is raised when the subroutine has been linted
+			lines = append(lines, ind()+fmt.Sprintf("declare local var.c12_%d STRING;", n))
+			siteLine[len(lines)] = n
 		case "prelse":
 			// the gap between `}` and `else`: with a comment in it (or by the seed) the brace gets its own line
 			if len(dirAt[n]) > 0 || (seed+int64(n))%2 == 0 {
